@@ -1011,6 +1011,14 @@ impl State {
                     }
                 }
                 ops.push(Op::Unset(*inst, imports[0], *a));
+                // every argument this source currently supplies can be unset, not only the first name
+                if let Some(nd) = d.node(*inst) {
+                    for e in nd.ins.iter().filter(|e| e.1 == 1 && e.0 == *a && e.2 != 0) {
+                        if let Some(i) = imports.get(e.2) {
+                            ops.push(Op::Unset(*inst, *i, *a));
+                        }
+                    }
+                }
             }
             ops.push(Op::Set(*inst, nm("k"), live[0]));
             ops.push(Op::Unset(*inst, nm("k"), live[0]));
